@@ -834,8 +834,9 @@ pub fn emit_machine(a: &Args, out: &mut Out) {
     if kind == "reset" { crate::scen2::gen_reset(a, out, 1, a.get_u64("n", if a.thorough() { 300 } else { 30 })); return; }
     // (a seeded machine logs its whole memory in the header: the thorough file is kept below 100 MB, which TLC reads in minutes)
     if kind == "repro" { let n = a.get_u64("n", if a.thorough() { 80 } else { 20 }); crate::scen2::gen_repro(a, out, 1, n); crate::scen2::gen_repro_reset(a, out, 1 + 2 * n, if a.thorough() { 30 } else { n }); return; }
-    if kind == "strictpairs" { crate::scen2::gen_strict_pairs(a, out, 1, a.get_u64("n", if a.thorough() { 400 } else { 40 }), false); return; }
-    if kind == "strictfull" { crate::scen2::gen_strict_pairs(a, out, 1, a.get_u64("n", if a.thorough() { 200 } else { 20 }), true); return; }
+    // (headers of seeded and fully initialized machines carry the whole memory: the thorough files stay below 100 MB)
+    if kind == "strictpairs" { crate::scen2::gen_strict_pairs(a, out, 1, a.get_u64("n", if a.thorough() { 160 } else { 40 }), false); return; }
+    if kind == "strictfull" { crate::scen2::gen_strict_pairs(a, out, 1, a.get_u64("n", if a.thorough() { 60 } else { 20 }), true); return; }
     if kind == "run" { crate::scen2::gen_run(a, out, 1, a.get_u64("n", if a.thorough() { 300 } else { 30 }), a.get_u64("np", if a.thorough() { 150 } else { 15 })); return; }
     if kind == "transparent" { crate::scen3::gen_transparent(a, out); return; }
     if kind == "traps" { crate::scen3::gen_traps(a, out); return; }
